@@ -260,7 +260,29 @@ func signhistImpl(a map[string]any) (res any) {
 		}
 		finalValid = append(finalValid, valid)
 	}
-	return map[string]any{"results": results, "keyids": keyids, "final_valid": finalValid}
+	// the bytes the library itself says are signed at the end of the history: GetSignableRepresentation
+	// (Metablock) / the stored payload member (envelope) - compared with the MODEL's canonical bytes of
+	// the same content, so that "standard canonical JSON" does not rest on the library's own struct
+	// tags (seeded change c04-keyid-hash-algs-omitempty)
+	var signable any
+	switch m := md.(type) {
+	case *intoto.Metablock:
+		if b, err := m.GetSignableRepresentation(); err == nil {
+			signable = string(b)
+		}
+	default:
+		pp := filepath.Join(dir, "final.json")
+		if md.Dump(pp) == nil {
+			raw, _ := os.ReadFile(pp)
+			var e struct {
+				Payload string `json:"payload"`
+			}
+			if json.Unmarshal(raw, &e) == nil {
+				signable = e.Payload
+			}
+		}
+	}
+	return map[string]any{"results": results, "keyids": keyids, "final_valid": finalValid, "signable": signable}
 }
 
 func init() {
